@@ -928,6 +928,36 @@ func (p *printer) body(n *Term) string {
 	return sb.String()
 }
 
+// letForm prints t as a nested let over its DAG cone (ids increase with creation, so id order is topological).
+func (p *printer) letForm(t *Term) string {
+	if t.Op == OpConst || t.Op == OpVar {
+		return p.ref(t)
+	}
+	seen := map[int]bool{}
+	var cone []*Term
+	stack := []*Term{t}
+	for len(stack) > 0 {
+		n := stack[len(stack)-1]
+		stack = stack[:len(stack)-1]
+		if seen[n.ID] || n.Op == OpConst || n.Op == OpVar {
+			continue
+		}
+		seen[n.ID] = true
+		cone = append(cone, n)
+		stack = append(stack, n.Args...)
+	}
+	sort.Slice(cone, func(i, j int) bool { return cone[i].ID < cone[j].ID })
+	var sb strings.Builder
+	for _, n := range cone {
+		fmt.Fprintf(&sb, "(let ((t%d %s)) ", n.ID, p.body(n))
+	}
+	sb.WriteString(p.ref(t))
+	for range cone {
+		sb.WriteByte(')')
+	}
+	return sb.String()
+}
+
 // termSize counts DAG nodes under t (for statistics).
 func termSize(t *Term, seen map[int]bool) int {
 	if seen[t.ID] {
